@@ -283,6 +283,7 @@ def run(ctx):
         n_amb, len(roots), len(reach)), "")
     for k in sorted(set(amb) - used):
         ctx.ob("R12.5", "stale:" + k, False, "table row no longer matches", "tables/c12_ambient.tsv")
+    _parallel_bodies(ctx, F)
     _controls(ctx, F)
 
 
@@ -314,6 +315,67 @@ def serde_json_features(repo):
         return feats
     except Exception:
         return None
+
+
+PAR_CONSUMER = re.compile(r"^(rayon::iter::(ParallelIterator|IndexedParallelIterator|ParallelExtend)::|"
+                          r"rayon_core::(join::join|spawn::spawn|scope::|broadcast::))")
+SHARED_WRITE = re.compile(r"(sync::(poison::)?(mutex::)?Mutex|sync::(poison::)?(rwlock::)?RwLock|cell::RefCell|cell::Cell|sync::mpsc|"
+                          r"sync::atomic|parking_lot|crossbeam|dashmap|once_cell|OnceLock|OnceCell)")
+SHARED_WRITE_NAMES = {"lock", "try_lock", "write", "try_write", "borrow_mut", "send", "try_send", "set", "replace", "store", "swap",
+                      "fetch_add", "fetch_sub", "fetch_or", "fetch_and", "fetch_max", "fetch_min", "compare_exchange", "get_or_init",
+                      "insert", "entry", "get_mut"}
+# parallel regions whose shared writes do not reach a compilation artefact: root function -> reason
+PAR_EXEMPT = {
+    "cairo_lang_test_runner::run_tests": "the test runner executes already compiled tests and reports outcomes through a channel; "
+                                         "no compilation artefact is produced in this region",
+}
+
+
+def _parallel_bodies(ctx, F):
+    """R12.6: the only way a value leaves the body of a parallel consumer is its return value.  rayon's collectors (collect,
+    map, flatten, ... on indexed iterators) put the returned values back in the order of the input; anything a body writes into
+    shared state - under a lock, through a RefCell / atomic / channel - arrives in completion order, i.e. depends on the number
+    of worker threads and on the schedule (seed C12-5: contract classes pushed into a Mutex<Vec> from try_for_each).  So a
+    closure handed to a rayon consumer / join / spawn / scope, and the closures nested in it, contain no call of a writing
+    method of a shared-state primitive.  (Memoised salsa queries are the sanctioned shared state: they are functions of their
+    keys - clause (c).)  Regions outside compilation are exempted by name with a reason."""
+    import re as _re
+    n = 0
+    for f in list(F.fns.values()):
+        for c in f.calls():
+            if not PAR_CONSUMER.match(c.path):
+                continue
+            for a in c.args:
+                l = op_local(a)
+                if l is None or "{closure@" not in f.local_ty(l) or f.local_ty(l).startswith(("rayon::", "core::iter")):
+                    continue
+                m = _re.search(r"\{closure@([^:]+):(\d+):", f.local_ty(l))
+                rootp = f.root if f.kind == "Closure" else f.path
+                rootfn = F.fns.get(rootp)
+                g = None
+                for h in (F.closures_of(rootfn) if rootfn else []):
+                    if m and h.file == m.group(1) and str(h.line) == m.group(2):
+                        g = h
+                        break
+                key = "%s|%s" % (fn_key(f.path), last_seg(c.path))
+                if g is None:
+                    ctx.ob("R12.6", "parallel-body:" + key, False, "cannot resolve the closure handed to %s" % last_seg(c.path), c.where())
+                    continue
+                n += 1
+                ctx.analysed(g)
+                body = [g] + [h for h in F.fns.values() if h.path.startswith(g.path + "::{closure")]
+                hits = [(h, x) for h in body for x in h.calls()
+                        if x.name() in SHARED_WRITE_NAMES and SHARED_WRITE.search(x.path + " " + x.via)]
+                ok = not hits
+                msg = "the body handed to %s writes no shared state" % last_seg(c.path)
+                if hits:
+                    msg = "; ".join("%s calls %s (%s)" % (fn_key(h.path), strip_generics(x.path)[-60:], x.where()) for h, x in hits[:3]) + \
+                          ": values written into shared state from a parallel body arrive in completion order"
+                    if rootp in PAR_EXEMPT:
+                        ok = True
+                        msg += " [exempt: %s]" % PAR_EXEMPT[rootp]
+                ctx.ob("R12.6", "parallel-body:" + key + ":" + fn_key(g.path).split("::")[-1], ok, msg, hits[0][1].where() if hits else g.where())
+    ctx.floor("parallel bodies analysed (R12.6)", n, 15)
 
 
 def _controls(ctx, F):
